@@ -285,7 +285,7 @@ fn expected(builds: &[Build]) -> Vec<Expect> {
             }
             Build::DocType(s) => push(Event::DocType(BytesText::from_escaped(s.clone())), None, None),
             Build::Eof => {}
-            Build::Builder { name, attrs, content } => {
+            Build::Builder { name, attrs, content, .. } => {
                 let mut e = BytesStart::new(name.clone());
                 for (k, v) in attrs {
                     e.push_attribute((k.as_str(), v.as_str()));
@@ -345,9 +345,16 @@ fn emit_sync(builds: &[Build], w: &mut Writer<Vec<u8>>) -> io::Result<()> {
             }
             Build::DocType(s) => w.write_event(Event::DocType(BytesText::from_escaped(s.as_str())))?,
             Build::Eof => w.write_event(Event::Eof)?,
-            Build::Builder { name, attrs, content } => {
+            Build::Builder { name, attrs, content, nl } => {
                 let mut ew = w.create_element(name.as_str());
-                for (k, v) in attrs {
+                for (i, (k, v)) in attrs.iter().enumerate() {
+                    if i < 7 && nl & (1 << i) != 0 {
+                        ew = ew.new_line();
+                    }
+                    if nl & 0x80 != 0 && i >= 1 {
+                        ew = ew.with_attributes(attrs[i..].iter().map(|(k, v)| (k.as_str(), v.as_str())));
+                        break;
+                    }
                     ew = ew.with_attribute((k.as_str(), v.as_str()));
                 }
                 match content {
@@ -395,9 +402,16 @@ async fn emit_async(builds: &[Build], w: &mut Writer<PipeWriter>) -> quick_xml::
             }
             Build::DocType(s) => w.write_event_async(Event::DocType(BytesText::from_escaped(s.as_str()))).await?,
             Build::Eof => w.write_event_async(Event::Eof).await?,
-            Build::Builder { name, attrs, content } => {
+            Build::Builder { name, attrs, content, nl } => {
                 let mut ew = w.create_element(name.as_str());
-                for (k, v) in attrs {
+                for (i, (k, v)) in attrs.iter().enumerate() {
+                    if i < 7 && nl & (1 << i) != 0 {
+                        ew = ew.new_line();
+                    }
+                    if nl & 0x80 != 0 && i >= 1 {
+                        ew = ew.with_attributes(attrs[i..].iter().map(|(k, v)| (k.as_str(), v.as_str())));
+                        break;
+                    }
                     ew = ew.with_attribute((k.as_str(), v.as_str()));
                 }
                 match content {
@@ -555,8 +569,9 @@ fn gen_build(rng: &mut Rng, open: &mut Vec<String>) -> Build {
             };
             Build::Builder {
                 name: rng.pick(P_NAMES).to_string(),
-                attrs: (0..rng.below(3)).map(|_| kv(rng)).collect(),
+                attrs: (0..rng.below(4)).map(|_| kv(rng)).collect(),
                 content,
+                nl: if rng.chance(1, 3) { rng.below(256) as u8 } else { 0 },
             }
         }
     }
@@ -800,7 +815,28 @@ fn canon_of(e: &Event<'_>) -> Canon {
         Event::DocType(_) => ("DocType", 0),
         Event::Eof => ("Eof", 0),
     };
-    Canon { kind, bytes: e.to_vec(), name_len }
+    let bytes = match e {
+        Event::Start(s) | Event::Empty(s) => {
+            let mut b = s.name().as_ref().to_vec();
+            for a in s.attributes().with_checks(false) {
+                b.push(0);
+                match a {
+                    Ok(a) => {
+                        b.extend_from_slice(a.key.as_ref());
+                        b.push(b'=');
+                        b.extend_from_slice(&a.value);
+                    }
+                    Err(err) => {
+                        b.extend_from_slice(format!("<attribute error {:?}>", err).as_bytes());
+                        break;
+                    }
+                }
+            }
+            b
+        }
+        _ => e.to_vec(),
+    };
+    Canon { kind, bytes, name_len }
 }
 
 /// adjacent Text coalesced, empty Text dropped
